@@ -5,8 +5,10 @@ import LcModel.Prove.LemmasC05
 Completeness theorems about the `Prove` layer (`Prove.onLastState`, `Prove.onProof`: the models of
 `SendLastStateProcess::execute` / `SendLastStateProofProcess::execute`, tied to the code by the
 differential harness): answers an honest server gives are accepted, the peer's proved state and the
-stored tip move to the announced header.  The last section keeps, as closed statements about the
-model, the honest exchanges the code rejects (found by the harness, reproduced by the model).
+stored tip move to the announced header.  Section 4 is the honest answer without sampled headers
+(banned before 1d2c7d1, accepted now; the old rule is kept as `oldCheckMatched`).  The last section
+keeps, as closed statements about the model, the honest exchanges the code rejects (found by the
+harness, reproduced by the model).
 
 Helper lemmas live in `LcModel/Prove/LemmasC05.lean`.
 -/
@@ -391,7 +393,7 @@ example : ∃ out, onProof exSt13fork 1 msg13 9 0 [] 0 [] = .ok out ∧
       msg13_honest.provable, msg13_honest.mmr⟩ (by decide) (by decide)
   ⟨out, h1, h2, h3⟩
 
-/-! ## 4. honest exchanges the code rejects (found by the differential harness) -/
+/-! ## 4. the honest answer without sampled headers is accepted (repaired by 1d2c7d1) -/
 
 /-- the server rule of the RFC for a request in the sampling branch, over a chain given by its
 total difficulties `td`: `(sampled block numbers, last-N block numbers)`.  The boundary block is
@@ -421,48 +423,159 @@ def zsSt : St :=
   { zsSt0 with peers := [(1, .requestFirstLastStateProof ⟨blk 57 57 56, 0⟩
       ⟨blk 57 57 56, zsContent, false, false⟩ 0)] }
 
-/-- **defect (a): an honest answer without sampled headers is banned.**  The client (store at
-block 55, `last_n_blocks = 1`) asks peer 1 for the proof of block 57 with one sampled difficulty
-that only block 56 reaches.  By the server rule block 56 is the boundary block and the last-N
-section, and the difficulty — above the total difficulty of block 55 — is dropped: the honest
-answer is the single header 56.  The handler counts no sampled header and then insists that the
-last-N section starts at the start block 55 ("there should be all blocks … since no sampled
-blocks"): 400 `MalformedProtocolMessage`, the peer is banned. -/
-theorem zero_samples_answer_is_banned :
+/-- the state after the exchange: peer 1 is `Ready` with the proved state for block 57 (last-N
+headers: block 56), the store holds block 57 -/
+def zsDone : St :=
+  { zsSt0 with peers := [(1, .ready ⟨blk 57 57 56, 0⟩ ⟨blk 57 57 56, [], [blk 56 56 55]⟩)],
+               stored := ⟨456, blk 57 57 56, [(56, 56)]⟩ }
+
+/-- **an honest answer without sampled headers is accepted.**  The client (store at block 55,
+`last_n_blocks = 1`) asks peer 1 for the proof of block 57 with one sampled difficulty that only
+block 56 reaches.  By the server rule block 56 is the boundary block and the last-N section, and
+the difficulty — above the total difficulty of block 55 — is dropped: the honest answer is the
+single header 56.  The handler counts no sampled header; the last-N section does not start at the
+start block 55, but more than last-N blocks are missing, the section is complete, block 55 does
+not reach the boundary and the requested difficulty lies inside block 56: shape `(0, 0, 1)`, the
+proof is committed.  (Before 1d2c7d1 this was defect (a): 400 `MalformedProtocolMessage`, see
+`old_rule_bans_zero_samples`.) -/
+theorem zero_samples_answer_is_accepted :
     getLastStateProof zsSt0 1 0 446 [444] = .ok (.ok (zsSt, [.getLastStateProof 1 zsContent])) ∧
     rfcAnswer (fun n => 8 * n) 55 57 1 446 [444] = ([], [56]) ∧
-    checkMatched 1 zsContent [blk 56 56 55] (blk 57 57 56) = .ok (.error 400) ∧
+    checkMatched 1 zsContent [blk 56 56 55] (blk 57 57 56) = .ok (.ok (0, 0, 1)) ∧
     onProof zsSt 1 ⟨blk 57 57 56, [blk 56 56 55], false, true⟩ 0 0 [] 0 [] =
-      .ok ⟨zsSt, .ban 400, []⟩ :=
+      .ok ⟨zsDone, .ok, []⟩ :=
   ⟨by rfl, by decide, by rfl, by rfl⟩
 
+/-- **the accepted shape without sampled headers, in general.**  In the sampling branch (more
+than `last_n_blocks` blocks are missing: `lastN < last - start`; the start block itself is never
+part of the answer there: `start_number <` first last-N header) an answer that consists of reorg
+headers `rs` (below the start, ending at `start - 1`, `lastN` of them or beginning at block 1 —
+none when the request starts from the peer's own proved state) followed by exactly `last_n_blocks`
+headers — sorted, ending at the parent of the last header — passes `check_if_response_is_matched`
+with the shape `(reorg, 0, lastN)`, provided that the block before the first of them does not
+reach the difficulty boundary and the first requested difficulty (if any; they are increasing)
+lies above that block's total difficulty, i.e. the server was right to sample nothing. -/
+theorem answer_without_samples_accepted_shape (lastN : Nat) (c : ReqContent) (rs : List VH) (a : VH)
+    (t : List VH) (l g : VH) (hsorted : checkMatched.sorted (rs ++ a :: t) = true)
+    (hrs : ∀ x ∈ rs, x.number < c.startNumber)
+    (hreorg : rs ≠ [] → (rs.length = lastN ∨ rs.head?.map (·.number) = some 1) ∧
+      rs.getLast?.map (·.number) = some (c.startNumber - 1))
+    (hstart : c.startNumber < a.number) (hgap : lastN < l.number - c.startNumber)
+    (hlen : (a :: t).length = lastN)
+    (hg : (a :: t).getLast? = some g) (hgl : g.number + 1 = l.number) (hl : l.number ≤ U64_MAX)
+    (hb : a.ptd < c.boundary) (hd : ∀ d ∈ c.difficulties.head?, a.ptd < d) :
+    checkMatched lastN c (rs ++ a :: t) l = .ok (.ok (rs.length, 0, lastN)) :=
+  checkMatched_no_sampled hsorted hrs hreorg hstart hlen hg hgl hl
+    (checkNoSampled_eq_none.2 ⟨hgap, rfl, hb, hd⟩)
+
+/-- the witness of `zero_samples_answer_is_accepted` is an instance (no reorg headers) -/
+example : checkMatched 1 zsContent [blk 56 56 55] (blk 57 57 56) = .ok (.ok (0, 0, 1)) :=
+  answer_without_samples_accepted_shape 1 zsContent [] _ [] _ (blk 56 56 55) rfl (by simp)
+    (fun h => absurd rfl h) (by decide) (by decide) rfl rfl rfl (by decide) (by decide) (by decide)
+
+/-- the premises about the requested difficulties and the boundary are needed: the same answer to
+a request whose first difficulty (440) is reached by block 55 already skips a sample — 451
+`InvalidSamples` —, and with a boundary (440) that block 55 reaches it is malformed — 400 -/
+example : checkMatched 1 { zsContent with difficulties := [440, 444] } [blk 56 56 55] (blk 57 57 56)
+      = .ok (.error 451) ∧
+    checkMatched 1 { zsContent with boundary := 440 } [blk 56 56 55] (blk 57 57 56)
+      = .ok (.error 400) :=
+  ⟨by rfl, by rfl⟩
+
+/-! ### the rule before 1d2c7d1 -/
+
+/-- `check_if_response_is_matched` before 1d2c7d1, from the check of the end of the last-N section
+on: without sampled headers the last-N section had to be **all** blocks `[start, last)` -/
+def oldCmTail (c : ReqContent) (headers : List VH) (last : VH) (reorg sampled lastNCount : Nat) :
+    M (Except Nat (Nat × Nat × Nat)) := do
+  if 0 < lastNCount && (headers.getLast?.map (fun l => decide (l.number + 1 = last.number))) ≠ some true then
+    return .error 400
+  if sampled = 0 then
+    if 0 < lastNCount then
+      match headers[reorg]?, headers.getLast? with
+      | some f, some l =>
+        let l1 ← addU64 65 l.number 1
+        if f.number ≠ c.startNumber || l1 ≠ last.number then return .error 400
+      | _, _ => .error (.index 66)
+    return .ok (reorg, sampled, lastNCount)
+  else
+    match headers[reorg + sampled]? with
+    | none => .error (.index 67)
+    | some firstLastN =>
+      let firstLastNTd ← firstLastN.td
+      let diffs := c.difficulties.takeWhile (· < firstLastNTd)
+      match ← checkMatched.matchLoop ((headers.drop reorg).take sampled) diffs with
+      | none => return .error 451
+      | some remaining =>
+        match remaining with
+        | [] => return .ok (reorg, sampled, lastNCount)
+        | next :: _ =>
+          if next ≤ firstLastN.ptd then return .error 451
+          else return .ok (reorg, sampled, lastNCount)
+
+/-- the old rule after the reorg-section checks (`Prove.cmMid` with `oldCmTail`) -/
+def oldCmMid (lastN : Nat) (c : ReqContent) (headers : List VH) (last : VH) (reorg : Nat) :
+    M (Except Nat (Nat × Nat × Nat)) := do
+  let total := headers.length
+  let shape ← cmShape lastN c headers reorg
+  match shape with
+  | .error c => return .error c
+  | .ok (sampled, lastNCount) =>
+  if sampled ≠ 0 then
+    match headers[total - lastNCount]? with
+    | none => .error (.index 72)
+    | some f => if c.boundary ≤ f.ptd then return .error 400
+  oldCmTail c headers last reorg sampled lastNCount
+
+/-- `check_if_response_is_matched` before 1d2c7d1 (the text of `Prove.checkMatched`, cut into the
+blocks of `Prove.checkMatched_eq`, with `oldCmTail`) -/
+def oldCheckMatched (lastN : Nat) (c : ReqContent) (headers : List VH) (last : VH) :
+    M (Except Nat (Nat × Nat × Nat)) := do
+  if headers.isEmpty then return .error 400
+  if !checkMatched.sorted headers then return .error 400
+  let reorg := (headers.takeWhile (fun h => h.number < c.startNumber)).length
+  if reorg ≠ 0 then
+    if reorg ≠ lastN then
+      if (headers.head?.map (·.number)) ≠ some 1 then return .error 452
+    match headers[reorg - 1]? with
+    | none => .error (.index 63)
+    | some lr =>
+      if lr.number ≠ c.startNumber - 1 then return .error 452
+  oldCmMid lastN c headers last reorg
+
+/-- **defect (a) of the rule before 1d2c7d1**: on the exchange of `zero_samples_answer_is_accepted`
+the old rule insists that the last-N section starts at the start block 55 ("there should be all
+blocks … since no sampled blocks"): 400 `MalformedProtocolMessage`, the honest peer was banned;
+the repaired rule accepts -/
+theorem old_rule_bans_zero_samples :
+    oldCheckMatched 1 zsContent [blk 56 56 55] (blk 57 57 56) = .ok (.error 400) ∧
+    checkMatched 1 zsContent [blk 56 56 55] (blk 57 57 56) = .ok (.ok (0, 0, 1)) :=
+  ⟨by rfl, by rfl⟩
+
 /-- defect (a) in general: in the sampling branch (`start_number < ` first header: the start
-block itself is never part of the answer there) **every** answer without sampled headers — at most
-`last_n_blocks` headers, sorted, ending at the parent of the last header — is rejected with 400,
-whatever was requested -/
-theorem answer_without_samples_is_banned (lastN : Nat) (c : ReqContent) (a : VH) (t : List VH)
+block itself is never part of the answer there) the old rule rejected **every** answer without
+sampled headers — at most `last_n_blocks` headers, sorted, ending at the parent of the last
+header — with 400, whatever was requested -/
+theorem old_rule_bans_answer_without_samples (lastN : Nat) (c : ReqContent) (a : VH) (t : List VH)
     (l g : VH) (hsorted : checkMatched.sorted (a :: t) = true)
     (hstart : c.startNumber < a.number) (hlen : (a :: t).length ≤ lastN)
     (hg : (a :: t).getLast? = some g) (hgl : g.number + 1 = l.number)
     (hl : l.number ≤ U64_MAX) :
-    checkMatched lastN c (a :: t) l = .ok (.error 400) := by
-  have hmid : cmMid lastN c (a :: t) l 0 = .ok (.error 400) := by
-    unfold cmMid cmShape
+    oldCheckMatched lastN c (a :: t) l = .ok (.error 400) := by
+  have hmid : oldCmMid lastN c (a :: t) l 0 = .ok (.error 400) := by
+    unfold oldCmMid cmShape
     have : ¬ (a :: t).length - 0 > lastN := by omega
     simp only [this, if_false]
-    unfold cmTail
+    unfold oldCmTail
     have hne : a.number ≠ c.startNumber := by omega
     simp [hg, hgl, addU64, hl, hne]
     rfl
   have hnlt : ¬ a.number < c.startNumber := by omega
-  rw [checkMatched_eq]
+  unfold oldCheckMatched
   simp [hsorted, hnlt]
   exact hmid
 
-/-- the witness of `zero_samples_answer_is_banned` is an instance -/
-example : checkMatched 1 zsContent [blk 56 56 55] (blk 57 57 56) = .ok (.error 400) :=
-  answer_without_samples_is_banned 1 zsContent _ [] _ (blk 56 56 55) rfl (by decide) (by decide)
-    rfl rfl (by decide)
+/-! ## 5. honest exchanges the code rejects (found by the differential harness) -/
 
 /-- the store is on branch B: tip 528 (`5281`) after 525, 526 (common with C) and 527 (`5271`) -/
 def lagSt : St :=
